@@ -8,6 +8,8 @@ CONSTANTS
   MaxMig = 2
   Serial = TRUE
   Requesters = {1, 2, 3}
+  MCPages <- Pages1
+  SkipZero = FALSE
   AcceptGuard = "handling"
 INVARIANTS TypeOK ContentsCopied NothingElseChanged CompleteOnce OneAtATime RoutedBack InRange AllServed
 CHECK_DEADLOCK FALSE
